@@ -2,8 +2,14 @@ import BppModel.Proto
 import BppModel.Discretize
 import BppModel.DiscretizeFamilies
 import BppModel.DiscretizeCompound
+import BppModel.DiscretizeShared
 /-
 Driver for C09 (discretised distributions).
+
+The distribution objects live in a `World` (BppModel/DiscretizeShared.lean): registers `cur`, `alt`
+(a second object made by `fork` = `clone()` or `forkassign` = `operator=`), and the stack of mixture
+components are indices into it.  Every object dump carries the group `q`: the parameters with the
+constraint they have now and a tag telling whether that constraint is the object's own domain.
 
 State-changing ops are answered by the harness with a dump of the protected state of
 `AbstractDiscreteDistribution` plus (group `o`) the values the family's own `pProb`/`qProb`/
@@ -68,6 +74,61 @@ def parseDD (groups : List (List String)) : Option (DD Float) :=
     | _, _, _, _, _, _, _, _, _, _, _ => none
   | _, _, _, _, _ => none
 
+/-- one parameter as dumped: name, value, tag, constraint -/
+structure QP where
+  name : String
+  value : Float
+  tag : String
+  c : Option (Interval Float)
+
+def parseQ : List String → Option (List QP)
+  | [] => some []
+  | nm :: v :: tag :: lo :: hi :: il :: iu :: rest =>
+    match float? v, parseQ rest with
+    | some v, some r =>
+      if tag == "n" || tag == "x" then some (⟨nm, v, tag, none⟩ :: r) else
+      (match float? lo, float? hi, bool? il, bool? iu with
+       | some lo, some hi, some il, some iu =>
+         let b (x : Float) : Bound Float := if x.isInf then (if x > 0 then .posInf else .negInf) else .fin x
+         some (⟨nm, v, tag, some ⟨b lo, b hi, il, iu, 0⟩⟩ :: r)
+       | _, _, _, _ => none)
+    | _, _ => none
+  | _ => none
+
+/-- the `q` groups of a dump: of the object and of its components -/
+def qGroups (t : List String) : List (List QP) :=
+  (splitTok "/" t).filterMap (fun part =>
+    match (splitTok ";" part).find? (fun g => g.head? == some "q") with
+    | some g => parseQ (g.drop 1)
+    | none => none)
+
+def hxBound : Bound Float → String
+  | .negInf => Hex.ofFloat (-(1.0 / 0.0))
+  | .posInf => Hex.ofFloat (1.0 / 0.0)
+  | .fin x => hx x
+
+def strHex (s : String) : String :=
+  if s.isEmpty then "-" else
+  String.ofList (s.toUTF8.toList.flatMap (fun b => [Hex.hexDigit (b.toNat / 16), Hex.hexDigit (b.toNat % 16)]))
+
+def showQ (name : String) (v : Float) (tag : String) (c : Option (Interval Float)) : String :=
+  " " ++ strHex name ++ " " ++ hx v ++
+  (match c with
+   | some i => " " ++ tag ++ " " ++ hxBound i.lo ++ " " ++ hxBound i.hi ++ " " ++ b01 i.inclLo ++ " " ++ b01 i.inclHi
+   | none => " n - - - -")
+
+/-- the parameters of a leaf: tag `o` when the constraint is the leaf's own domain object -/
+def showLeafQ (w : World Float) (l : Leaf Float) (sl : Slot Float) : String :=
+  String.join (l.pinfo.map (fun p =>
+    let tied := p.tieable && sl.tie.isSome
+    showQ p.name p.value (if tied then (if sl.tie == some sl.id then "o" else "i") else "i") (p.constraint (w.peek sl.tie))))
+
+/-- a compound's copies of the parameters of one component (`pre`: their namespace inside the compound) -/
+def showCopyQ (w : World Float) (pre : String) (l : Leaf Float) (sl : Slot Float) : String :=
+  String.join ((copyParams (w.peek sl.ctie) l sl.cvals).zip l.pinfo |>.map (fun vp =>
+    let tied := vp.2.tieable && sl.ctie.isSome
+    showQ (pre ++ vp.1.name) vp.1.value (if tied then (if sl.ctie == some sl.id then "c" else "i") else "i") vp.1.constraint))
+
 def showDD (s : DD Float) : String :=
   "st " ++ toString s.n ++ " " ++ b01 s.median ++ " " ++ toString s.scheme ++ " " ++ hx s.prec ++
   " ; dom " ++ hx s.dom.lo ++ " " ++ hx s.dom.hi ++ " " ++ b01 s.dom.inclLo ++ " " ++ b01 s.dom.inclHi ++
@@ -82,22 +143,32 @@ structure Ans where
   oTail : String       -- the groups `o`, `xp`, `xe` as printed (echoed by the model)
   xp : List Float
   xe : List Float
+  xq : List Float      -- triples (x, qProb x, pProb (qProb x)) for the quantiles the discretisation asked for
+  qs : List (List QP)  -- the parameters of the object, of its components, of the second object and of its components
+  altPart : Option String   -- the dump of the second object as printed
 
-def parseAns (t : List String) : Option Ans :=
-  let (exc, t) : Option String × List String := match t with
-    | h :: r => if h.startsWith "exc:" then (some h, r) else (none, t)
+def parseAns (t0 : List String) : Option Ans :=
+  let (exc, t1) : Option String × List String := match t0 with
+    | h :: r => if h.startsWith "exc:" then (some h, r) else (none, t0)
     | [] => (none, [])
+  let (t, altT) : List String × Option (List String) := match splitTok "//" t1 with
+    | [a] => (a, none)
+    | [a, b] => (a, some b)
+    | _ => (t1, none)
   match splitTok "/" t with
   | mainT :: subT =>
     let groups := splitTok ";" mainT
     let grp (tag : String) : List String := match groups.find? (fun g => g.head? == some tag) with | some g => g.drop 1 | none => []
     match parseDD groups, parseEnts (grp "o"), subT.mapM (fun st => parseDD (splitTok ";" st)),
-          (grp "xp").mapM float?, (grp "xe").mapM float? with
-    | some d, some es, some subs, some xp, some xe =>
+          (grp "xp").mapM float?, (grp "xe").mapM float?, (grp "xq").mapM float? with
+    | some d, some es, some subs, some xp, some xe, some xq =>
       some { exc := exc, main := d, subs := subs, ents := es,
-             oTail := " ; o " ++ " ".intercalate (grp "o") ++ " ; xp " ++ " ".intercalate (grp "xp") ++ " ; xe " ++ " ".intercalate (grp "xe"),
-             xp := xp, xe := xe }
-    | _, _, _, _, _ => none
+             oTail := " ; o " ++ " ".intercalate (grp "o") ++ " ; xp " ++ " ".intercalate (grp "xp") ++ " ; xe " ++ " ".intercalate (grp "xe") ++
+               " ; xq " ++ " ".intercalate (grp "xq"),
+             xp := xp, xe := xe, xq := xq,
+             qs := qGroups t ++ (match altT with | some a => qGroups a | none => []),
+             altPart := altT.map (fun a => " ".intercalate a) }
+    | _, _, _, _, _, _ => none
   | [] => none
 
 /-- a double as an extended bound -/
@@ -161,10 +232,38 @@ def exploreClauses (s : DD Float) (eqProbBranch meanValued resolvedOk medianResc
        let pm := (xe.getLastD 0 - xe.headD 0) / cond
        absF (m - pm) ≤ 1e-6 * (1 + absF pm)))]
 
+/-- exploration of "pProb and qProb are mutually inverse" at the quantiles the discretisation asked for:
+`pProb (qProb x) = x` up to 2% of the smaller tail mass `min x (1 - x)` (the quantile algorithms are
+accurate to about 1e-6 relative, qChisq's small-value branch to about 1%) — in particular in the far tails, where the domain carries too
+little mass for the other explorations.  Probabilities outside `]0,1[` and quantiles that left the
+domain (clamped by the discretisation) are skipped. -/
+def inverseClause (lo hi : Float) : List Float → Bool
+  | x :: q :: pq :: rest =>
+    (!(x > 0 && x < 1) || !(q > lo && q < hi) ||
+      -- a quantile that close to a non-zero end of the domain is not resolved by the doubles around it
+      absF (q - lo) < 1e-9 * absF lo || absF (hi - q) < 1e-9 * absF hi ||
+      absF (pq - x) ≤ 2e-2 * (if x < 1 - x then x else 1 - x) + 1e-13) && inverseClause lo hi rest
+  | _ => true
+
+/-- exploration of `q_ge_lo` / `q_le_hi` (consequences of `H`): a quantile asked for a probability
+strictly between `pProb lower` and `pProb upper` lies inside the domain.  Judged where the mass of
+the domain is resolved by the doubles (`cond ≥ 1e-9·max |P|`) and the probability is at least
+0.1% of that mass away from both ends.  Covers the error value -1 of qGamma. -/
+def quantileInDomain (lo hi pl ph : Float) : List Float → Bool
+  | x :: q :: _ :: rest =>
+    let cond := ph - pl
+    (!(cond ≥ 1e-9 * maxF (absF pl) (absF ph)) || !(x > pl + 1e-3 * cond && x < ph - 1e-3 * cond) ||
+      (q ≥ lo - 1e-9 * (1 + absF lo) && q ≤ hi + 1e-9 * (1 + absF hi))) && quantileInDomain lo hi pl ph rest
+  | _ => true
+
 /-! ### constructors -/
 
-/-- result of a constructor op: current object, stack, error -/
-abbrev NewRes := Option (CState Float) × List (CState Float) × Option Err
+/-- what a constructor op asks for -/
+inductive NewReq where
+  | leaf (l : Leaf Float)           -- a leaf constructor that succeeded
+  | fail (e : Err)                  -- a refused constructor: nothing changes
+  | invar (p inv : Float)           -- wraps the current object
+  | mix (k : Nat) (ws : List Float) -- takes the last k objects of the stack
 
 def floats? (l : List String) : Option (List Float) := l.mapM float?
 
@@ -172,48 +271,29 @@ def unzip2 : List Float → List Float × List Float
   | a :: b :: t => let r := unzip2 t; (a :: r.1, b :: r.2)
   | _ => ([], [])
 
-def leafOf? : CState Float → Option (Leaf Float)
-  | .leaf l => some l
-  | _ => none
-
-def newDist (orc : Parent Float) (slot : Nat) (fam : String) (args : List String)
-    (cur : Option (CState Float)) (stack : List (CState Float)) : Option NewRes :=
-  let mk (r : Except Err (FamSt Float)) : Option NewRes :=
+def newReq (orc : Parent Float) (slot : Nat) (fam : String) (args : List String) : Option NewReq :=
+  let mk (r : Except Err (FamSt Float)) : Option NewReq :=
     match r with
-    | .ok f => some (some (CState.leaf (.fam slot f)), stack, none)
-    | .error e => some (cur, stack, some e)
+    | .ok f => some (.leaf (.fam slot f))
+    | .error e => some (.fail e)
   match fam, args with
-  | "const", [v] => (float? v).map fun v => (some (.leaf (.const (ConstSt.make v))), stack, none)
+  | "const", [v] => (float? v).map fun v => .leaf (.const (ConstSt.make v))
   | "simple", prec :: _fixed :: k :: rest =>
     match float? prec, k.toNat?, floats? rest with
     | some prec, some k, some vp =>
       if vp.length != 2 * k then none else
       let (vs, ps) := unzip2 vp
       match SimpleSt.make vs ps prec with
-      | .ok s => some (some (.leaf (.simple s)), stack, none)
-      | .error e => some (cur, stack, some e)
+      | .ok s => some (.leaf (.simple s))
+      | .error e => some (.fail e)
     | _, _, _ => none
   | "invar", [p, inv] =>
     match float? p, float? inv with
-    | some p, some inv =>
-      match cur.bind leafOf? with
-      | none => some (cur, stack, some .bpp)
-      | some l =>
-        match InvarSt.make l p inv with
-        | .ok s => some (some (.invar s), stack, none)
-        | .error e => some (none, stack, some e)      -- the nested distribution was moved into the constructor
+    | some p, some inv => some (.invar p inv)
     | _, _ => none
   | "mix", k :: ws =>
     match k.toNat?, floats? ws with
-    | some k, some ws =>
-      if ws.length != k then none else
-      if stack.length < k then some (cur, stack, some .bpp) else
-      let comps := (stack.drop (stack.length - k)).filterMap leafOf?
-      let stack' := stack.take (stack.length - k)
-      if comps.length != k then some (cur, stack', some .bpp) else
-      match MixSt.make comps ws with
-      | .ok s => some (some (.mix s), stack', none)
-      | .error e => some (cur, stack', some e)
+    | some k, some ws => if ws.length != k then none else some (.mix k ws)
     | _, _ => none
   | _, _ =>
   match famOfName fam, args with
@@ -246,19 +326,66 @@ def newDist (orc : Parent Float) (slot : Nat) (fam : String) (args : List String
 /-! ### driver state -/
 
 structure St where
-  cur : Option (CState Float) := none
-  stack : List (CState Float) := []
+  w : World Float := World.empty
+  cur : Option Nat := none
+  alt : Option Nat := none
+  stack : List Nat := []
   nextSlot : Nat := 0
+  /-- the implementation's dump of the second object after the previous operation -/
+  lastAlt : Option String := none
 
-def showC (c : CState Float) : String × String :=
-  -- (main dump, sub dumps)
-  (showDD c.top, String.join (c.subDDs.map (fun d => " / " ++ showDD d)))
+def St.curObj (s : St) : Option (TObj Float) := s.cur.bind (fun i => s.w.objs[i]?)
+def St.curState (s : St) : Option (CState Float) := s.curObj.map (·.st)
+
+/-- (main dump, component dumps) of an object -/
+def showObj (w : World Float) (o : TObj Float) : String × String :=
+  let comps := o.slots.zip o.st.leaves
+  let unitI : Option (Interval Float) := some unitC
+  match o.st with
+  | .leaf l =>
+    (showDD l.top ++ " ; q" ++ (match o.slots with | [sl] => showLeafQ w l sl | _ => " ?"), "")
+  | .invar st =>
+    (showDD st.top ++ " ; q" ++ String.join (comps.map (fun sl => showCopyQ w sl.2.prefix_ sl.2 sl.1)) ++ showQ "p" st.p "i" unitI,
+     String.join (comps.map (fun sl => " / " ++ showDD sl.2.top ++ " ; q" ++ showLeafQ w sl.2 sl.1)))
+  | .mix st =>
+    let thetas := String.join ((st.thetas.zip (List.range st.thetas.length)).map (fun ti =>
+      showQ ("theta" ++ toString (ti.2 + 1)) ti.1 "i" unitI))
+    let copies := String.join ((List.range comps.length).map (fun k =>
+      match comps[k]? with
+      | some sl => showCopyQ w (toString (k + 1) ++ "_" ++ sl.2.prefix_) sl.2 sl.1
+      | none => ""))
+    (showDD st.top ++ " ; q" ++ thetas ++ copies,
+     String.join (comps.map (fun sl => " / " ++ showDD sl.2.top ++ " ; q" ++ showLeafQ w sl.2 sl.1)))
+
+/-- the tag the invariant `Owned` (BppProofs/Props/C09Shared.lean: `world_owned`) demands of every
+parameter whose constraint was replaced by a domain object: `o` — the object's own —, for a
+compound's copy `c` — the domain of the component it mirrors.  Same order as the `q` groups of
+`showObj`; `none`: nothing demanded. -/
+def expectedTags (o : TObj Float) : List (List (Option String)) :=
+  let comps := o.slots.zip o.st.leaves
+  let leafTags (sl : Slot Float × Leaf Float) : List (Option String) :=
+    sl.2.pinfo.map (fun p => if p.tieable && sl.1.tie.isSome then some "o" else none)
+  let copyTags (sl : Slot Float × Leaf Float) : List (Option String) :=
+    sl.2.pinfo.map (fun p => if p.tieable && sl.1.ctie.isSome then some "c" else none)
+  match o.st with
+  | .leaf _ => [comps.flatMap leafTags]
+  | .invar _ => (comps.flatMap copyTags ++ [none]) :: comps.map leafTags
+  | .mix st => (st.thetas.map (fun _ => none) ++ comps.flatMap copyTags) :: comps.map leafTags
+
+def St.expectedTags (s : St) : List (List (Option String)) :=
+  (match s.curObj with | some o => Drive.C09.expectedTags o | none => []) ++
+  (match s.alt.bind (fun i => s.w.objs[i]?) with | some o => Drive.C09.expectedTags o | none => [])
+
+def showAlt (s : St) : String :=
+  match s.alt.bind (fun i => s.w.objs[i]?) with
+  | some o => let (m, subs) := showObj s.w o; " // " ++ m ++ subs
+  | none => ""
 
 def showState (s : St) (exc : Option Err) (oTail : String) : String :=
   let pre := match exc with | some e => e.toString ++ " " | none => ""
-  match s.cur with
-  | none => pre ++ "none"
-  | some c => let (m, subs) := showC c; pre ++ m ++ oTail ++ subs
+  match s.curObj with
+  | none => pre ++ "none" ++ showAlt s
+  | some o => let (m, subs) := showObj s.w o; pre ++ m ++ oTail ++ subs ++ showAlt s
 
 /-- verdict on the implementation's answer to a state-changing op.
 
@@ -267,7 +394,7 @@ hypotheses `H` on the parent are judged where the double evaluation of the paren
 well-conditioned (conditional mass of the domain ≥ 1e-3: below that `pProb(upper) - pProb(lower)`
 cancels and the gamma quantile leaves its documented range) or in the uniform fallback. -/
 def judgeState (s : St) (es : List Ent) (a : Ans) : String :=
-  match s.cur with
+  match s.curState with
   | none => "ok"
   | some c =>
     match c with
@@ -286,13 +413,14 @@ def judgeState (s : St) (es : List Ent) (a : Ans) : String :=
       if !hasPar then firstFail [("values_strict_mono", valuesStrictMono d)] else
       firstFail (
         [("search_parent_quantile_sentinel", !sentinel),
-         -- the equal-interval scheme assigns `distribution_[value] = mass` without looking for an
-         -- equivalent key: it needs classes wider than the comparator precision (theorem hypothesis)
-         ("n_classes", nClassesOk d || !(eqB || eqIntResolved f.dd)),
-         ("n_classes_equal_interval", nClassesOk d || eqB || eqIntResolved f.dd),
-         ("probs_sum_one", probsSumOne 1e-9 d || !(eqB || wc)),
+         ("search_parent_inverse", inverseClause f.dd.dom.lo f.dd.dom.hi a.xq),
+         ("search_parent_quantile_in_domain", quantileInDomain f.dd.dom.lo f.dd.dom.hi (par.P f.dd.dom.lo) (par.P f.dd.dom.hi) a.xq),
+         ("n_classes", nClassesOk d),
+         -- on a domain without mass both schemes give equal probabilities (exact); with mass the
+         -- equal-interval masses are differences of pProb divided by the mass: judged where well-conditioned
+         ("probs_sum_one", probsSumOne 1e-9 d || !(eqB || wc || !(cond > 0))),
          ("values_strict_mono", valuesStrictMono d),
-         ("probs_nonneg", probsNonneg d || !(eqB || wc)),
+         ("probs_nonneg", probsNonneg d || !(eqB || wc || !(cond > 0))),
          ("equal_mass", !eqB || equalMass d)] ++
         (if wc || fallback then
           [("bounds_monotone_in_domain", boundsMonoInDom d),
@@ -302,23 +430,59 @@ def judgeState (s : St) (es : List Ent) (a : Ans) : String :=
         -- theorem `when_possible_distinct_bounds` (in doubles: classes wider than the spacing of the doubles)
         (if f.dd.scheme == 3 && (f.dd.dom.hi - f.dd.dom.lo) / Float.ofNat f.dd.n > 1e-9 * (1 + absF f.dd.dom.lo + absF f.dd.dom.hi)
          then [("when_possible_distinct_bounds", !(hasEqualNeighbours d.allBounds))] else []) ++
-        (if wc then exploreClauses d eqB (!f.dd.median && eqB) rs (eqB && f.dd.median && !fallback && rescaledB par f.dd) a.xp a.xe else []))
+        -- mean-valued classes are explored where none of them fell back to the midpoint of its bounds
+        (if wc then exploreClauses d eqB (!f.dd.median && eqB && noMeanFallback par f.dd) rs (eqB && f.dd.median && !fallback && rescaledB par f.dd) a.xp a.xe else []))
     | .leaf (.const _) => firstFail (compoundClauses [] a.main ++ [("n_classes", a.main.dist.length == 1 && a.main.n == 1)])
     | .leaf (.simple ss) => firstFail (compoundClauses [] a.main ++
         [("n_classes", a.main.dist.length == ss.vs.length && a.main.n == ss.vs.length),
          ("values_strict_mono", valuesStrictMono a.main), ("bounds_monotone_in_domain", nondecr a.main.bounds)])
     | _ => firstFail (compoundClauses a.subs a.main ++ [("values_strict_mono", valuesStrictMono a.main)])
 
-def stepChange (s : St) (impl : Option (List String)) (f : List Ent → St × Option Err) : St × String × String :=
+/-- clauses about the parameters and the second object (BppProofs/Props/C09Shared.lean), on the
+implementation's answer:
+ * `tie_own` — a parameter constrained by a domain object is constrained by the domain object of
+   its own distribution (of the component it mirrors, for a compound's copy): invariant `Owned`;
+ * `param_accepted` — every parameter (of the object, of its components, of the second object)
+   holds a value accepted by the constraint it has now;
+ * `copy_independent` — an operation on the current object leaves the second object (classes,
+   bounds, domain, parameters, parameter constraints, of it and of its components) as it was. -/
+def sharedClauses (exp : List (List (Option String))) (prevAlt : Option String) (touchesAlt : Bool) (a : Ans) : List (String × Bool) :=
+  [("tie_own", exp.length != a.qs.length || (exp.zip a.qs).all (fun eq =>
+      eq.1.length != eq.2.length || (eq.1.zip eq.2).all (fun tq => match tq.1 with | some t => tq.2.tag == t | none => true))),
+   ("param_accepted", a.qs.all (fun g => paramsAccepted (g.map (fun q => (⟨q.name, q.value, q.c⟩ : PView Float))))),
+   ("copy_independent", touchesAlt || (match prevAlt, a.altPart with
+      | some x, some y => x == y
+      | none, _ => true
+      | some _, none => false))]
+
+def stepChange (s : St) (impl : Option (List String)) (touchesAlt : Bool) (f : List Ent → St × Option Err) : St × String × String :=
   let ans := impl.bind parseAns
   let es := match ans with | some a => a.ents | none => []
   let (s', err) := f es
-  let oTail := match ans with | some a => a.oTail | none => " ; o ; xp ; xe"
-  let verdict := match impl, ans with
-    | none, _ => "-"
-    | some t, none => if t.getLast? == some "none" then "ok" else "FAIL:parse"
-    | some _, some a => judgeState s' es a
-  (s', showState s' err oTail, verdict)
+  let oTail := match ans with | some a => a.oTail | none => " ; o ; xp ; xe ; xq"
+  -- an answer without a current object: `[exc:…] none [// alt]`
+  let noneAns : Option (Option String) := match impl with
+    | some t =>
+      let t1 := match t with | h :: r => if h.startsWith "exc:" then r else t | [] => []
+      (match splitTok "//" t1 with
+       | [["none"]] => some none
+       | [["none"], b] => some (some (" ".intercalate b))
+       | _ => none)
+    | none => none
+  let verdict := match impl, ans, noneAns with
+    | none, _, _ => "-"
+    | some _, _, some altP =>
+      firstFail [("copy_independent", touchesAlt || (match s.lastAlt, altP with | some x, some y => x == y | none, _ => true | some _, none => false))]
+    | some _, none, none => "FAIL:parse"
+    | some _, some a, none =>
+      let v := judgeState s' es a
+      if v != "ok" then v else firstFail (sharedClauses s'.expectedTags s.lastAlt touchesAlt a)
+  let alt' : Option String := match impl, ans, noneAns with
+    | none, _, _ => s'.lastAlt
+    | _, some a, _ => a.altPart
+    | _, none, some altP => altP
+    | _, none, none => s'.lastAlt
+  ({ s' with lastAlt := alt' }, showState s' err oTail, verdict)
 
 def exceptStr {β : Type} (f : β → String) : Except Err β → String
   | .ok v => f v
@@ -385,51 +549,102 @@ def lookStep (d : DD Float) (allB : Except Err (List Float)) (noImpl : Bool) (op
     else none
   | _ => none
 
+/-- apply an operation of the world to the current object -/
+def onCur (s : St) (orc : Nat → Parent Float) (mk : Nat → WOp Float) : St × Option Err :=
+  match s.cur with
+  | some i => let r := WOp.step orc s.w (mk i); ({ s with w := r.1 }, r.2)
+  | none => (s, none)
+
+def isLeafObj (w : World Float) (i : Nat) : Bool :=
+  match w.objs[i]? with
+  | some o => (match o.st with | .leaf _ => true | _ => false)
+  | none => false
+
 def step (s : St) (op : List String) (impl : Option (List String)) : St × String × String :=
   let bad : St × String × String := (s, "bad-op", "-")
   let noImpl := impl.isNone
   -- an operation that did not return is a failure of its own
-  if (match impl with | some t => t.contains "hang" | none => false) then ({ s with cur := none }, "hang", "FAIL:terminates") else
+  if (match impl with | some t => t.contains "hang" | none => false) then ({ s with cur := none, alt := none, lastAlt := none }, "hang", "FAIL:terminates") else
   match op with
   | "new" :: famName :: args =>
-    stepChange s impl fun es =>
+    stepChange s impl false fun es =>
       let slot := s.nextSlot
       let s1 := { s with nextSlot := slot + 1 }
-      match newDist (oracleOf es slot) slot famName args s1.cur s1.stack with
-      | some (c, stack, e) => ({ s1 with cur := c, stack := stack }, e)
+      match newReq (oracleOf es slot) slot famName args with
+      | some (.leaf l) =>
+        let r := WOp.step (oracleOf es) s1.w (.add l)
+        ({ s1 with w := r.1, cur := some s1.w.objs.length }, none)
+      | some (.fail e) => (s1, some e)
+      | some (.invar p inv) =>
+        (match s1.cur with
+         | some i =>
+           if !(isLeafObj s1.w i) then (s1, some .bpp) else
+           let r := WOp.step (oracleOf es) s1.w (.wrapInvar i p inv)
+           (match r.2 with
+            | none => ({ s1 with w := r.1 }, none)
+            | some e => ({ s1 with cur := none }, some e))      -- the nested distribution was moved into the constructor
+         | none => (s1, some .bpp))
+      | some (.mix k ws) =>
+        if s1.stack.length < k then (s1, some .bpp) else
+        let comps := s1.stack.drop (s1.stack.length - k)
+        let s2 := { s1 with stack := s1.stack.take (s1.stack.length - k) }
+        if !(comps.all (isLeafObj s2.w)) then (s2, some .bpp) else
+        let r := WOp.step (oracleOf es) s2.w (.mkMix comps ws)
+        (match r.2 with
+         | none => ({ s2 with w := r.1, cur := some s2.w.objs.length }, none)
+         | some e => (s2, some e))
       | none => (s1, some .unreachable)
   | ["push"] =>
     match s.cur with
     | some c => let st := s.stack ++ [c]; ({ s with cur := none, stack := st }, "ok " ++ toString st.length, "-")
     | none => (s, "ok " ++ toString s.stack.length, "-")
+  | ["swap"] => stepChange s impl true fun _ => ({ s with cur := s.alt, alt := s.cur }, none)
   | _ =>
-  match s.cur with
-  | none => (s, "none", "-")
+  match s.curState with
+  | none => (s, "none" ++ showAlt s, "-")
   | some c =>
-  let change (f : List Ent → CStep Float) : St × String × String :=
-    stepChange s impl fun es => let r := f es; ({ s with cur := some r.st }, r.err)
   let orc (es : List Ent) : Nat → Parent Float := oracleOf es
+  let change (mk : Nat → WOp Float) : St × String × String :=
+    stepChange s impl false fun es => onCur s (orc es) mk
   match op with
   | ["setp", name, v] =>
     match float? v with
-    | some v => change fun es => c.setP (orc es) (hexName name) v
+    | some v => change fun i => .setP i (hexName name) v
     | none => bad
   | ["setn", n] =>
     match n.toNat? with
-    | some n => change fun es => c.setN (orc es) n
+    | some n => change fun i => .setN i n
     | none => bad
   | ["median", b] =>
     match bool? b with
-    | some b => change fun es => c.setMed (orc es) b
+    | some b => change fun i => .setMed i b
     | none => bad
-  | ["discretize"] => change fun es => c.rediscretize (orc es)
+  | ["discretize"] => change fun i => .rediscretize i
   | ["restrict", lo, hi, il, iu] =>
     match float? lo, float? hi, bool? il, bool? iu with
     | some lo, some hi, some il, some iu =>
-      change fun es => c.restrict (orc es) ⟨boundOf lo, boundOf hi, il, iu, (Constants.TINY : Float)⟩
+      change fun i => .restrict i ⟨boundOf lo, boundOf hi, il, iu, (Constants.TINY : Float)⟩
     | _, _, _, _ => bad
-  | ["copy"] => change fun _ => ⟨c, none⟩
-  | ["dump"] => change fun _ => ⟨c, none⟩
+  | ["copy"] =>
+    -- the current object is replaced by its clone (the original is destroyed)
+    stepChange s impl false fun es =>
+      let r := onCur s (orc es) .clone
+      ({ r.1 with cur := some s.w.objs.length }, r.2)
+  | ["fork"] =>
+    -- `alt = cur->clone()`: the copy constructor
+    stepChange s impl true fun es =>
+      let r := onCur s (orc es) .clone
+      ({ r.1 with alt := some s.w.objs.length }, r.2)
+  | ["forkassign"] =>
+    -- `alt = <a fresh object of the same class>; *alt = *cur`: the assignment operator
+    stepChange s impl true fun es =>
+      let r := onCur s (orc es) .clone
+      let k := s.w.objs.length
+      let r2 := onCur r.1 (orc es) (fun i => .assign i k)
+      ({ r2.1 with alt := some k }, r2.2)
+  | ["dump"] => stepChange s impl false fun _ => (s, none)
+  -- `*cur = *cur`: the assignment operators return at once
+  | ["selfassign"] => stepChange s impl false fun _ => (s, none)
   | _ =>
   -- queries on the compound / family's top-level object
   let d := c.top
